@@ -297,7 +297,7 @@ func main() {
 	for _, o := range eng.obls {
 		keepIt := len(tagw) == 0
 		switch o.Kind {
-		case "invariant-entry", "invariant-preserved", "decreases", "callee-precondition", "frame", "crash-invariant", "borrowed-slice":
+		case "invariant-entry", "invariant-preserved", "decreases", "callee-precondition", "frame", "crash-invariant", "borrowed-slice", "aliased-write":
 			if fnWanted[o.Func] {
 				keepIt = true
 			}
